@@ -198,7 +198,7 @@ def _s(x):
     return ct.s(_n(x))
 
 
-def regenerate(repo):
+def regenerate(repo, out=None):
     """Rewrite coq/Generated/Tables.v if its content changed.  Returns {table: 'ok'|'fallback(reason)'}."""
     def parse(rel):
         with open(os.path.join(repo, rel)) as f:
@@ -239,10 +239,11 @@ def regenerate(repo):
     status["update_config_src"] = "ok" if why is None else "fallback(%s)" % why
     lines.append("Definition update_config_src : option (list (string * string)) := %s." % term)
     txt = "\n".join(lines) + "\n"
-    os.makedirs(os.path.dirname(OUT), exist_ok=True)
-    old = open(OUT).read() if os.path.exists(OUT) else None
+    out = out or OUT
+    os.makedirs(os.path.dirname(out), exist_ok=True)
+    old = open(out).read() if os.path.exists(out) else None
     if old != txt:
-        with open(OUT, "w") as f:
+        with open(out, "w") as f:
             f.write(txt)
     return status
 
